@@ -402,6 +402,20 @@ def f22():
     return False, "accepted: an event without any affected industry"
 
 
+@trigger("F23", ["C13", "C09"])
+def f23():
+    """household damage of a recovery event declared through the scalar constructors must reach the event"""
+    h = pd.Series({("rA", "gov"): 5.0})
+    h.index = pd.MultiIndex.from_tuples(list(h.index), names=["region", "category"])
+    kw = dict(event_type="recovery", occurrence=1, duration=1, recovery_tau=3, event_monetary_factor=10**6, households_impact=h)
+    e1 = bev.from_scalar_industries(10.0, affected_industries=[("rA", "agri")], impact_distrib="equal", **kw)
+    e2 = bev.from_scalar_regions_sectors(10.0, affected_regions=["rA"], affected_sectors=["agri"], impact_regional_distrib="equal",
+                                         impact_sectoral_distrib="equal", **kw)
+    got = [getattr(e, "impact_households", None) for e in (e1, e2)]
+    ok = all(g is not None and float(g.sum()) == 5.0 for g in got)
+    return ok, f"household impact held by the events: {[None if g is None else float(g.sum()) for g in got]}"
+
+
 def run_all(props=None, only=None):
     res = {}
     for fid, t in TRIGGERS.items():
